@@ -115,11 +115,11 @@ Definition z_ok (index : nat) : bool :=
   | _, _ => false
   end.
 
-(* ----- CRYST1: save/pdb.rs writes  <54 columns> "  " format!("{:10}{:3}", hm, z) ; lex_cryst reads columns 55..66 ----- *)
+(* ----- CRYST1: save/pdb.rs writes  <54 columns> " " format!("{:11}{:4}", hm, z) ; lex_cryst reads columns 55..66 ----- *)
 Definition pad_right (n : nat) (s : text) : text := (s ++ repeat " "%char (n - List.length s))%list.
 Definition pad_left (n : nat) (s : text) : text := (repeat " "%char (n - List.length s) ++ s)%list.
 Definition cryst1_tail (hm : string) (z : nat) : text :=   (* the line from column 54 on *)
-  ([" "%char; " "%char] ++ pad_right 10 (list_ascii_of_string hm) ++ pad_left 3 (show_Z (Z.of_nat z)))%list.
+  ([" "%char] ++ pad_right 11 (list_ascii_of_string hm) ++ pad_left 4 (show_Z (Z.of_nat z)))%list.
 Definition cryst1_read_symbol (tail : text) : string :=
   (* columns 55 .. min(66, len) of the line = 1 .. 12 of the tail *)
   string_of_list_ascii (trim (firstn 11 (skipn 1 tail))).
@@ -137,7 +137,7 @@ Definition cif_roundtrip (index : nat) : option nat :=
   | None => None
   end.
 Definition long_symbol (index : nat) : bool :=
-  match hm_for_index index with Some hm => Nat.ltb 10 (String.length hm) | None => false end.
+  match hm_for_index index with Some hm => Nat.ltb 11 (String.length hm) | None => false end.
 
 Definition upto (n : nat) : list nat := seq 1 n.
 
